@@ -95,4 +95,20 @@ for h in range(R.n(40, 800)):
             for lab in 'AB':
                 got = cad.by_label(lab)
                 R.check('by_label', {'n': len(model), 'label': lab}, [id(x) for x in got] == [id(x) for x in model if x.metadata['order_label'] == lab], None)
+# set_order after the labels have drifted away from the positions (deletions / inserts), with the same and with another order string
+for order2 in ('ABACAD', 'XYZXYZ'):
+    for hist_op in ('del-first', 'insert-middle', 'pop-middle'):
+        cad = stg.OrderedCadence(order='ABACAD')
+        for _ in range(5):
+            cad.append(mkframe())
+        if hist_op == 'del-first':
+            del cad[0]
+        elif hist_op == 'insert-middle':
+            cad.insert(1, mkframe())
+        else:
+            cad.pop(2)
+        cad.set_order(order2)
+        labels = ''.join(f.metadata['order_label'] for f in cad)
+        R.check('set_order/relabels-every-position', dict(history=hist_op, new_order=order2), labels == order2[:len(cad)] and
+                [id(x) for x in cad.by_label(order2[0])] == [id(f) for k_, f in enumerate(cad) if order2[k_] == order2[0]], labels, order2[:len(cad)])
 R.finish()
